@@ -21,6 +21,7 @@ func init() {
 			"R3: DryRun/MeasurementOnly are never stored to, and their address is taken only in package cmd, where it flows to nothing but the destination argument of pflag's BoolVar/BoolVarP (directly or through helpers of package cmd; never stored or handed to another flag's parser), which justifies treating all loads as one flag. " +
 			"R4: what is printed under measurement-only and what SignDoc signs derive from one GoldenMeasurement call result. " +
 			"R5: the dry_run / measurement_only flags are bound to the DryRun / MeasurementOnly fields of the very Context installed with endorse.NewContext. " +
+			"R6: the mode flags do not shape what is measured and signed: no decision in GoldenMeasurement's call closure derives from DryRun/MeasurementOnly, and no store to a Context field that closure reads is conditional on a mode flag. " +
 			"Not covered: equality of reported values as bytes; side effects inside VersionControl implementations' ReleasePath/Result (pure by interface contract).",
 		Assumptions: []string{"go/types, go/ssa, VTA call graph", "VersionControl.ReleasePath/RetriableError/Result do not write files or commit (interface documentation)"},
 		Run:         runC15,
@@ -293,6 +294,86 @@ func runC15(c *Ctx) {
 		c.S.Floor("R5", "registration of flag "+fl.flagName, 1, sites)
 	}
 	_ = keysPkg
+
+	// ---- R6: the mode flags do not shape what is measured and signed ----
+	// (a) no decision inside GoldenMeasurement's call closure depends on DryRun/MeasurementOnly; (b) the Context
+	// fields that closure reads are filled in the same way in every mode: no store to one of them lies under a
+	// condition that derives from a mode flag.
+	if gm != nil {
+		isMode := func(x ssa.Value) bool {
+			return flow.IsFieldLoad(x, endorsePkg, "Context", "DryRun") || flow.IsFieldLoad(x, endorsePkg, "Context", "MeasurementOnly")
+		}
+		msl := flow.NewSlicer(c.P)
+		closure := c.reachable([]*ssa.Function{gm}, nil)
+		inputs := map[string]bool{}
+		conds, modal := 0, 0
+		for f := range closure {
+			if c.isTestFunc(f) {
+				continue
+			}
+			for _, b := range f.Blocks {
+				for _, in := range b.Instrs {
+					switch x := in.(type) {
+					case *ssa.FieldAddr:
+						if pt, ok := x.X.Type().Underlying().(*types.Pointer); ok && namedIs(pt.Elem(), endorsePkg, "Context") {
+							inputs[flow.FieldName(x)] = true
+						}
+					case *ssa.If:
+						conds++
+						if msl.Derives(x.Cond, isMode) {
+							modal++
+							c.S.Bad("R6", load.FuncName(f)+":decision on a mode flag", c.pos(condPos(x)), "a decision inside the golden measurement's computation depends on DryRun/MeasurementOnly: a dry or measurement-only run would report other measurements than the real run signs")
+						}
+					}
+				}
+			}
+		}
+		delete(inputs, "DryRun")
+		delete(inputs, "MeasurementOnly")
+		c.S.Floor("R6", "decisions in GoldenMeasurement's call closure", 20, conds)
+		c.S.Floor("R6", "Context fields read by GoldenMeasurement's call closure", 3, len(inputs))
+		if modal == 0 {
+			c.S.OK("R6", "endorse.GoldenMeasurement:mode-free", c.pos(gm.Pos()), fmt.Sprintf("none of %d decisions in %d functions derives from a mode flag", conds, len(closure)), true)
+		}
+		stores := 0
+		for _, f := range c.P.RepoFunctions() {
+			if c.isTestFunc(f) {
+				continue
+			}
+			for _, b := range f.Blocks {
+				for _, in := range b.Instrs {
+					st, ok := in.(*ssa.Store)
+					if !ok {
+						continue
+					}
+					fa, ok := st.Addr.(*ssa.FieldAddr)
+					if !ok {
+						continue
+					}
+					pt, ok := fa.X.Type().Underlying().(*types.Pointer)
+					if !ok || !namedIs(pt.Elem(), endorsePkg, "Context") || !inputs[flow.FieldName(fa)] {
+						continue
+					}
+					stores++
+					bad := false
+					for _, cf := range dominatingConds(b) {
+						if msl.Derives(cf.Cond, isMode) {
+							bad = true
+						}
+					}
+					c.S.Check(!bad, "R6", load.FuncName(f)+":Context."+flow.FieldName(fa)+" filled in every mode", c.pos(st.Pos()), "the store is under no condition on a mode flag", "Context."+flow.FieldName(fa)+" feeds the golden measurement and is filled only in some modes (the store is conditional on DryRun/MeasurementOnly): the measurements reported by a dry or measurement-only run differ from what the real run signs")
+				}
+			}
+		}
+		c.S.Floor("R6", "stores to Context fields that feed the golden measurement", 3, stores)
+	}
+}
+
+func condPos(i *ssa.If) token.Pos {
+	if i.Cond.Pos().IsValid() {
+		return i.Cond.Pos()
+	}
+	return i.Block().Parent().Pos()
 }
 
 // onlyBoundAsBoolFlag follows a pointer to a flag field forwards from one use: it may be the destination argument of
